@@ -581,7 +581,7 @@ pub fn marshal_rtcp_packets(packets: &[RtcpPacket]) -> RtpResult<Vec<u8>> {
                 &mut out,
                 rtcp_count(sdes.chunks.len())?,
                 RTCP_SDES,
-                build_sdes_body(sdes),
+                build_sdes_body(sdes)?,
             ),
             RtcpPacket::Goodbye(bye) => write_rtcp_packet(
                 &mut out,
@@ -938,11 +938,15 @@ fn build_receiver_report_body(rr: &ReceiverReport) -> RtpResult<Vec<u8>> {
     Ok(body)
 }
 
-fn build_sdes_body(sdes: &SourceDescription) -> Vec<u8> {
+fn build_sdes_body(sdes: &SourceDescription) -> RtpResult<Vec<u8>> {
     let mut body = Vec::new();
     for chunk in &sdes.chunks {
         body.extend_from_slice(&chunk.ssrc.to_be_bytes());
         for item in &chunk.items {
+            // The item length is a single octet (RFC 3550 §6.5).
+            if item.text.len() > 0xFF {
+                return Err(RtpError::InvalidRtcp("SDES item text longer than 255 bytes"));
+            }
             body.push(item.ty);
             body.push(item.text.len() as u8);
             body.extend_from_slice(item.text.as_bytes());
@@ -952,7 +956,7 @@ fn build_sdes_body(sdes: &SourceDescription) -> Vec<u8> {
             body.push(0);
         }
     }
-    body
+    Ok(body)
 }
 
 fn build_goodbye_body(bye: &Goodbye) -> Vec<u8> {
